@@ -147,7 +147,18 @@ class RemoteState(dict):
     @staticmethod
     def recreate_obj_and_patch_setstate(newobj, newargs, children_names):
         ret = newobj(*newargs)
-        orig_getstate = ret.__setstate__.__func__
+        # the class does not have to define __setstate__, fall back to what unpickling does by default then
+        orig_getstate = getattr(type(ret), '__setstate__', None)
+        def default_setstate(obj, state):
+            slotstate = None
+            if isinstance(state, tuple) and len(state) == 2:
+                state, slotstate = state
+            if state:
+                obj.__dict__.update(state)
+            if slotstate:
+                for key, value in slotstate.items():
+                    setattr(obj, key, value)
+
         def patched_setstate(obj, state):
             if isinstance(state, dict):
                 patched_state = state.copy()
@@ -157,8 +168,11 @@ class RemoteState(dict):
             else:
                 patched_state = state
             del obj.__setstate__
-            assert obj.__setstate__.__func__ is orig_getstate
-            orig_getstate(obj, patched_state)
+            if orig_getstate is not None:
+                assert obj.__setstate__.__func__ is orig_getstate
+                orig_getstate(obj, patched_state)
+            else:
+                default_setstate(obj, patched_state)
             RemoteState.child_restored(obj)
 
         ret.__setstate__ = patched_setstate.__get__(ret, type(ret)) # pylint: disable=assignment-from-no-return,no-value-for-parameter
